@@ -44,9 +44,13 @@ class Prop:
             "goes), directed sweeps placing quit() / the "
             "destructor after every number of steps of the loop thread (loop entry, poll, dispatch, drain; thread start-up, "
             "publication, loop entry) and the loop's own quit against the destructor; the EventLoopThread families again under "
-            "ASan with detect_stack_use_after_return=1; thorough: every schedule of five small programs within 2..3 "
-            "preemptions. pool engine: pool sizes 0..8 each, then random sizes up to 64, 200 (quick) / 2000 (thorough) "
-            "getNextLoop calls per case in bursts with hashes from {0,1,N-1,N,N+1,2^32-1,2^32,2^63,2^64-1,random} in between. "
+            "ASan with detect_stack_use_after_return=1; thorough: every schedule of nine small programs within 1..3 "
+            "preemptions (two of them: a foreign queueInLoop()+wakeup() inside handleRead() just before its read of the "
+            "eventfd, then a foreign quit() once the loop is back in poll; enumerated first in search mode). pool engine: pool sizes 0..8 each, then random sizes up to 64, 200 (quick) / 2000 (thorough) "
+            "getNextLoop calls per case in bursts with hashes from {0,1,N-1,N,N+1,2^32-1,2^32,2^63,2^64-1,random} in between; "
+            "thorough tier and search mode: 2^31+21 consecutive calls on a pool of 7 and 2^32+9 on a pool of 3 (in-process, "
+            "digest = first/last result and number of breaks of the rotation, judged against the closed form i mod N; not "
+            "replayed through the model driver). "
             "Non-trivial: at least two threads acted / every pool case; distinct = distinct implementation logs.")
     trusted_base = [
         "Lean 4.33.0 kernel; axioms allowed: propext, Classical.choice, Quot.sound",
@@ -78,15 +82,41 @@ class Prop:
             if engine == pool_common.ENGINE:
                 pool_common.replay_pool(ctx, pool_common.read_case_file(replay), "dbg")
             return
+        if ctx.search_mode:
+            # an obligation or a tie broke: the asserts-on half of the pool part first (about 20 s with the long runs,
+            # against minutes for the loop engine's search), the sanitizer half after the loop engine
+            self.pool_part(ctx, ["dbg"])
+            if ctx.stop():
+                return
+            loop_common.correspondence(self, ctx, None, "C05")
+            if ctx.stop():
+                return
+            self.pool_part(ctx, ["asan"])
+            return
         loop_common.correspondence(self, ctx, None, "C05")
         if ctx.stop():
             return
-        flavours = ["dbg"] if ctx.quick() and not ctx.search_mode else ["dbg", "asan"]
+        # (the loop engine enters search mode by itself when its runs diverge from the model)
+        self.pool_part(ctx, ["dbg"] if ctx.quick() and not ctx.search_mode else ["dbg", "asan"])
+
+    def pool_part(self, ctx, flavours):
+        search = ctx.search_mode
         for fl in flavours:
             pool_common.corpus_pool(ctx, fl, "C05")
             if ctx.stop():
                 return
             pool_common.run_pool(ctx, fl)
+            if ctx.stop():
+                return
+            # long runs across the 2^31 and 2^32 boundaries of the cursor (implementation + closed-form oracle): thorough
+            # tier and search mode, asserts-on build (about 20 s, the two runs side by side); search mode also under
+            # UBSan, which reports a signed overflow of the cursor whatever the pool size (about 45 s)
+            if ctx.quick() and not search:
+                continue
+            if fl == "dbg":
+                pool_common.run_spin(ctx, "dbg")
+            elif search:
+                pool_common.run_spin(ctx, "asan", [(3, (1 << 31) + 9)])
             if ctx.stop():
                 return
 
